@@ -140,7 +140,7 @@ CHECK = {
 # ---- fourth suite: CORRECTLY SIGNED requests, both transports (checks/siggen.py); decided by wf_response alone
 import siggen
 CHECK["suites"].append(dict(siggen.suite(siggen.oracle_c02, None, siggen.classify_c02),
-                            gen=lambda rng, tier: siggen.gen(rng, tier, *((500, 5, 150, 8) if tier == "quick" else (15000, 100, 3000, 200)))))
+                            gen=lambda rng, tier: siggen.gen(rng, tier, *((800, 6, 150, 8) if tier == "quick" else (15000, 100, 3000, 200)))))
 
 MANIFEST = {
     "level_text": ("Theorem c02_wellformed (Coq, no axioms): for every request, transport, EDNS size, key set and every catalog whose "
